@@ -352,6 +352,12 @@ bool qhasharr_put_by_obj(qhasharr_t *tbl, const void *name, size_t namesize,
         return false;
     }
 
+    // the size of a name is kept in 16 bits.
+    if (namesize > UINT16_MAX) {
+        errno = EINVAL;
+        return false;
+    }
+
     qhasharr_data_t *tbldata = tbl->data;
     qhasharr_slot_t *tblslots = get_slots(tbl);
 
